@@ -62,7 +62,7 @@ func cmdVerify(args []string) {
 	re := regexp.MustCompile(*fre)
 	var keys []string
 	for k, fc := range w.contracts {
-		if fc.Extern || fc.AssumeOnly || fc.Inline {
+		if fc.Extern || (fc.AssumeOnly && !fc.SingleTx) || fc.Inline {
 			continue
 		}
 		if re.MatchString(k) {
